@@ -69,6 +69,31 @@ func Wide2() (string, error) {
 
 func Now() (int64, bool) { return nanotime(), true }
 
+// literal-only returns (the alternatives must be exactly these values, in source order)
+func Classify(n int) (string, bool) {
+	if n > 0 {
+		return "positive", true
+	}
+	if n < 0 {
+		return "negative", true
+	}
+	return "zero", false
+}
+
+func ClassifyGoto(n int) (string, bool) {
+	if n > 0 {
+		goto pos
+	}
+	if n < 0 {
+		goto neg
+	}
+	return "zero", false
+pos:
+	return "positive", true
+neg:
+	return "negative", true
+}
+
 func cycleA(n int) (int, error) {
 	if n == 0 {
 		return 0, errors.New("a")
@@ -105,6 +130,22 @@ func UseM(t T) (int, error)      { return t.M() }
 	sort.Slice(fns, func(i, j int) bool { return fns[i].FullName() < fns[j].FullName() })
 	if len(fns) < 12 {
 		t.Fatalf("only %d functions found", len(fns))
+	}
+	// literal-only functions: exact alternatives in source order
+	wantLit := map[string]string{
+		"Lit":          "(1, \"x\", true)",
+		"Classify":     "(\"positive\" | \"negative\" | \"zero\", true | true | false)",
+		"ClassifyGoto": "(\"zero\" | \"positive\" | \"negative\", false | true | true)",
+	}
+	for name, want := range wantLit {
+		f := p.Function(name)
+		if f == nil {
+			t.Fatalf("function %s not found", name)
+		}
+		rs, _ := p.ResultsOf(f)
+		if got := rs.String(); got != want {
+			t.Errorf("FAILING INPUT: ResultsOf(%s) = %s, want exactly the literal values in source order %s", name, got, want)
+		}
 	}
 	for _, fn := range fns {
 		declared := fn.Type().(*types.Signature).Results()
